@@ -21,8 +21,10 @@ def jobs(tier, seed):
                 if mode >= 6 and (P == 0 or n > 2): continue
                 if mode in (3, 5) and C == 0: continue
                 if mode in (2, 4) and P == 0: continue
+                if mode in (2, 3) and n >= 2:
+                    out.append({'entry': 'h_c06', 'harness': 'h_c06.cpp', 'name': ['point-column', 'channel-column'][mode - 2] + '-with-surplus-in-last-frame', 'cfg': {'n': n, 'mode': mode, 'P': P, 'C': C, 'S': S, 'beyond': 3, 'surplus': 1}})
                 out.append({'entry': 'h_c06', 'harness': 'h_c06.cpp', 'name': ['append', 'indexed', 'point-column', 'channel-column', 'point-by-name', 'channel-by-name', 'gap-then-point-by-name', 'gap-then-point-column'][mode],
-                            'cfg': {'n': n, 'mode': mode, 'P': P, 'C': C, 'S': S, 'beyond': 3 if tier == 'quick' else 5}})
+                            'cfg': {'n': n, 'mode': mode, 'P': P, 'C': C, 'S': S, 'beyond': 3 if tier == 'quick' else 5, 'surplus': 0}})
     for n in (1, 2, 3):
         for variant in (0, 1, 2, 3):
             for where in [-1] + list(range(n + 2)):
@@ -30,7 +32,8 @@ def jobs(tier, seed):
     for kind in (0, 1, 2):
         for n in range(top + 1):
             for append in (0, 1):
-                out.append({'entry': 'h_c06_inner', 'harness': 'h_c06.cpp', 'name': ['points', 'subframes', 'channels'][kind] + ('-append' if append else '-indexed'), 'cfg': {'kind': kind, 'n': n, 'append': append, 'beyond': 3}})
+                out.append({'entry': 'h_c06_inner', 'harness': 'h_c06.cpp', 'name': ['points', 'subframes', 'channels'][kind] + ('-append' if append else '-indexed'), 'cfg': {'kind': kind, 'n': n, 'append': append, 'beyond': 3, 'self': 0}})
+                if n >= 1: out.append({'entry': 'h_c06_inner', 'harness': 'h_c06.cpp', 'name': ['points', 'subframes', 'channels'][kind] + ('-append' if append else '-indexed') + '-own-element', 'cfg': {'kind': kind, 'n': n, 'append': append, 'beyond': 3, 'self': 1}})
     return out
 
 def inner_obligations(sec, job, st, idx, resolve=lambda v: v):
@@ -117,6 +120,11 @@ def obligations(sec, job, st, idx=None):
             O += frame_eq('gap-column/one-column-per-frame', E[k], A[k], 'frame %d (of %d, %d created as gap frames) after adding one point column' % (k, len(E), len(E) - n - 1), extra_point=ep)
     else:
         O.append(Obl('column/count', len(A) != n, 'column add changes the frame count %d -> %d' % (n, len(A))))
+        if mode in (2, 3) and dict(sec['call'])['refused']:
+            # only a ragged argument may be refused, and a refused call changes nothing
+            O.append(Obl('column/refused', not cfg.get('surplus'), 'a well-formed column was refused'))
+            for k in range(min(n, len(A))): O += frame_eq('column/refused-unchanged', B[k], A[k], 'frame %d after a refused column add' % k)
+            return O
         if mode in (2, 3):
             G = obsmodel.parse_dump([('dat.nbFrames', n)] + sec['given'])['frames']
         for k in range(min(n, len(A))):
@@ -135,7 +143,7 @@ def run_job(engine, job):
             v = dict(sec['in'])['idx']
             rs = lambda x: x if is_c(x) else eng.concretize(st, x, 1)[0]
             return inner_obligations(sec, job, st, rs(v), rs)
-        return std_run(engine, job, obl2, 'c06.end', ID, job['name'])
+        return std_run(engine, job, obl2, 'c06.end', ID, job['name'], fatal_as='violation')
     def obl(sec, job, st):
         idx = None
         if job['cfg']['mode'] == 1:
